@@ -91,12 +91,15 @@ func bmpAddPathMarshallingOption(path *table.Path) *bgp.MarshallingOption {
 	}
 }
 
-func (b *bmpClient) tryConnect() *net.TCPConn {
+func (b *bmpClient) tryConnect() net.Conn {
 	interval := 1
 	for {
 		b.s.logger.Debug("Connecting to BMP server",
 			slog.String("Topic", "bmp"),
 			slog.String("Key", b.host.String()))
+		if vconn, handled := verifDial(context.Background(), b.host.Addr().String(), int(b.host.Port())); handled && vconn != nil {
+			return vconn
+		}
 		conn, err := net.Dial("tcp", b.host.String())
 		if err != nil {
 			select {
@@ -112,7 +115,7 @@ func (b *bmpClient) tryConnect() *net.TCPConn {
 			b.s.logger.Debug("Connected to BMP server",
 				slog.String("Topic", "bmp"),
 				slog.String("Key", b.host.String()))
-			return conn.(*net.TCPConn)
+			return conn
 		}
 	}
 }
